@@ -593,10 +593,10 @@ func runCase(c driver.Case) driver.Result {
 
 func main() {
 	driver.Main(driver.Property{
-		ID:    "C14",
-		Level: "exploration",
-		Rule:  "every catalogue operator O (alone and in random chains, blocking operators included — Subscribe runs on a harness goroutine) between never-ending controllable source(s) (a puppet that emits only when the harness tells it to, so 'without the source having to end or emit again' is literal) and an early-terminating downstream D ∈ {Take 1/2/3, First, ElementAt(1), TakeWhile(false), TakeUntil(signal), MapErr failing at the 1st/2nd value, a panicking Tap, external Unsubscribe after 1/2 values, cancellation of the subscription context for context-aware operators}; time-driven/asynchronous creation operators cut by Unsubscribe / context cancellation. After the cut no further emission is made. Oracle after quiescence: every subscribed source has been released (teardown ran), the harness's Subscribe call has returned, no library goroutine keeps running; 'never returns' is decided by the all-goroutines-blocked proof, never by a deadline. Cases in which O never lets D terminate (operators that wait for completion) are counted as trivial. Non-trivial: the downstream side did terminate.",
-		Assume: []string{"a watchdog expiry without a blocked-process proof is inconclusive"},
+		ID:        "C14",
+		Level:     "exploration",
+		Rule:      "every catalogue operator O (alone and in random chains, blocking operators included — Subscribe runs on a harness goroutine) between never-ending controllable source(s) (a puppet that emits only when the harness tells it to, so 'without the source having to end or emit again' is literal) and an early-terminating downstream D ∈ {Take 1/2/3, First, ElementAt(1), TakeWhile(false), TakeUntil(signal), MapErr failing at the 1st/2nd value, a panicking Tap, external Unsubscribe after 1/2 values, cancellation of the subscription context for context-aware operators}; time-driven/asynchronous creation operators cut by Unsubscribe / context cancellation. After the cut no further emission is made. Oracle after quiescence: every subscribed source has been released (teardown ran), the harness's Subscribe call has returned, no library goroutine keeps running; 'never returns' is decided by the all-goroutines-blocked proof, never by a deadline. Cases in which O never lets D terminate (operators that wait for completion) are counted as trivial. Non-trivial: the downstream side did terminate. Also: sources that emit one value inside their subscribe function before becoming never-ending (head), higher-order operators (MergeAll, MergeMap*, ConcatAll, FlatMap*, CombineLatestAll, ZipAll) with an asynchronous outer source and never-ending inner sources (outer value of waiting operators sent from its own goroutine; that call must return once the downstream side is over), and multi-source entries where a subset of the sources has a panicking teardown.",
+		Assume:    []string{"a watchdog expiry without a blocked-process proof is inconclusive"},
 		Plan:      plan,
 		Run:       runCase,
 		CaseWatch: 90 * time.Second,
